@@ -1,4 +1,7 @@
 import PlasVerif.Driver.Util
+import PlasVerif.Driver.C05
+import PlasVerif.Model.IfInvoke
+import PlasVerif.Spec.Conform
 import PlasVerif.Spec.CondTree
 import PlasVerif.Spec.TeXTests
 /-!
@@ -205,6 +208,81 @@ def pifStr : Except Err (List T × Bool) → String
   | .error e => errStr e
   | .ok (ts, t) => s!"ok:{if t then 1 else 0}:{toksStr ts}"
 
+/-! ### token-level streams (tokens in the word format of `Driver/C05.lean`) -/
+
+def kind? : String → Option PlasVerif.Model.IfInvoke.Kind
+  | "num" => some .num | "dim" => some .dim | "odd" => some .odd | "case" => some .case_ | _ => none
+
+def whichStr : Which → String
+  | .bool true => "b1" | .bool false => "b0" | .case n => s!"n{n}"
+
+def ierrStr : PlasVerif.Model.IfInvoke.IErr → String
+  | .num e => C05.numErr e
+  | .args (.num e) => C05.numErr e
+  | .args .attr => "err:AttributeError"
+  | .value => "err:ValueError"
+
+def invStr : Except PlasVerif.Model.IfInvoke.IErr (Which × List PlasVerif.Model.Numbers.Tok) → String
+  | .error e => ierrStr e
+  | .ok (w, r) => s!"ok:{whichStr w}|rest:{C05.srcOf r}"
+
+def condStr : Except PlasVerif.Model.IfInvoke.PErr (List PlasVerif.Model.Numbers.Tok × Bool) → String
+  | .error (.test e) => ierrStr e
+  | .error (.scan e) => errStr e
+  | .ok (r, t) => s!"ok:{if t then 1 else 0}|rest:{C05.srcOf r}"
+
+/-- TeX's verdict on two literal values -/
+def relWhich (c : Nat) (a b : Int) : Option Which :=
+  if c = 60 then some (.bool (decide (a < b))) else if c = 62 then some (.bool (decide (a > b)))
+  else if c = 61 then some (.bool (decide (a = b))) else none
+
+open PlasVerif.Spec.Literals PlasVerif.Spec.Conform in
+/-- `testlit num I… <relcode> I… | tail` / `testlit odd I… | tail` / `testlit case I… | tail`:
+    literal-structured operands; spec = TeX's rule on the literal values when the literals are well formed
+    and what follows each cannot continue it -/
+def handleTestLit (k : String) (ws : List String) : String :=
+  let (lw, tw) := splitAt1 "|" ws
+  match tw.mapM C05.tok? with
+  | none => "bad-op"
+  | some tail =>
+    match k, C05.parseLit lw with
+    | "num", some (.i la, rc :: r2) =>
+      match rc.toNat?, C05.parseLit r2 with
+      | some c, some (.i lb, []) =>
+        let rt : PlasVerif.Model.Numbers.Tok := .ch c
+        let ts := la.render ++ rt :: (lb.render ++ tail)
+        let ok := la.wf && lb.wf && intFollow la (rt :: (lb.render ++ tail)) && intFollow lb tail
+        let spec := match ok, relWhich c la.den lb.den with
+          | true, some w => s!"ok:{whichStr w}|rest:{C05.srcOf tail}"
+          | _, _ => "-"
+        s!"{invStr (PlasVerif.Model.IfInvoke.invoke .num ts)}\t{spec}\t{joinSp (ts.map C05.tokWord)}"
+      | _, _ => "bad-op"
+    | "dim", some (.m la, rc :: r2) =>
+      match rc.toNat?, C05.parseLit r2 with
+      | some c, some (.m lb, []) =>
+        let rt : PlasVerif.Model.Numbers.Tok := .ch c
+        let ts := la.render ++ rt :: (lb.render ++ tail)
+        let ok := dimWf false la && dimWf false lb && la.den.order == 0 && lb.den.order == 0 &&
+          dimFollow la (rt :: (lb.render ++ tail)) && dimFollow lb tail
+        let w : Option Which :=
+          if c = 60 then some (.bool (decide (la.den.amount < lb.den.amount)))
+          else if c = 62 then some (.bool (decide (la.den.amount > lb.den.amount)))
+          else if c = 61 then some (.bool (decide (la.den.amount = lb.den.amount))) else none
+        let spec := match ok, w with
+          | true, some w => s!"ok:{whichStr w}|rest:{C05.srcOf tail}"
+          | _, _ => "-"
+        s!"{invStr (PlasVerif.Model.IfInvoke.invoke .dim ts)}\t{spec}\t{joinSp (ts.map C05.tokWord)}"
+      | _, _ => "bad-op"
+    | "odd", some (.i la, []) =>
+      let ts := la.render ++ tail
+      let spec := if la.wf && intFollow la tail then s!"ok:{whichStr (.bool (la.den.natAbs % 2 == 1))}|rest:{C05.srcOf tail}" else "-"
+      s!"{invStr (PlasVerif.Model.IfInvoke.invoke .odd ts)}\t{spec}\t{joinSp (ts.map C05.tokWord)}"
+    | "case", some (.i la, []) =>
+      let ts := la.render ++ tail
+      let spec := if la.wf && intFollow la tail then s!"ok:{whichStr (.case la.den)}|rest:{C05.srcOf tail}" else "-"
+      s!"{invStr (PlasVerif.Model.IfInvoke.invoke .case_ ts)}\t{spec}\t{joinSp (ts.map C05.tokWord)}"
+    | _, _ => "bad-op"
+
 def handle : List String → String
   | "ifscan" :: w :: ws =>
     match which? w, ws.mapM tok? with
@@ -242,6 +320,15 @@ def handle : List String → String
         | none => "-"
       s!"ok:{dots n}|{dots t}|{dots f}\t{spec}"
     | none => "bad-op"
+  | "invoke" :: k :: ws =>
+    match kind? k, ws.mapM C05.tok? with
+    | some k, some ts => s!"{invStr (PlasVerif.Model.IfInvoke.invoke k ts)}\t-"
+    | _, _ => "bad-op"
+  | "condraw" :: k :: ws =>
+    match kind? k, ws.mapM C05.tok? with
+    | some k, some ts => s!"{condStr (PlasVerif.Model.IfInvoke.condInvoke k ts)}\t-"
+    | _, _ => "bad-op"
+  | "testlit" :: k :: ws => handleTestLit k ws
   | _ => "bad-op"
 
 end PlasVerif.Driver.C03
